@@ -443,6 +443,23 @@ export function genRewrite(rng, params) {
     return [A("rewrite"), A(String(counter++)), p1, [["entry.ts", tsOfProg(p1)]], vals.map(encVal), q1, [["entry.ts", tsOfProg(q1)]], [A("intro-alias")]];
   }
   if (rng.chance(1, 12)) {
+    // two object types with the same property names and types that differ only in which properties are optional, in one
+    // program, and a rewrite that flips the order in which the compiler meets them (renamed aliases / declarations swapped):
+    // validators the printer hoists and shares must not be shared between the two
+    const props = [["a", A("string")], ["b", A("number")], ["c", A("boolean")]].filter(() => rng.chance(3, 4));
+    if (props.length < 2) props.push(["a", A("string")], ["b", A("number")]);
+    const uniq = props.filter((x, i) => props.findIndex((y) => y[0] === x[0]) === i);
+    const req = [A("obj"), uniq.map(([k, t]) => [k, A("false"), t]), A("none")];
+    const someOpt = [A("obj"), uniq.map(([k, t], i) => [k, A(i === 0 || rng.chance(1, 2) ? "true" : "false"), t]), A("none")];
+    const second = rng.chance(1, 2) ? someOpt : [A("bi"), "Partial", [A("ref"), "Ta"]];
+    const mk = (n1, n2, swap) => { const ds = [[A("alias"), n1, [], req], [A("alias"), n2, [], head(second) === "bi" ? [A("bi"), "Partial", [A("ref"), n1]] : second]];
+      const ex = [["E1", [A("ref"), n1]], ["E2", [A("ref"), n2]]]; return [p[0], swap ? [ds[1], ds[0]] : ds, ex]; };
+    const p1 = mk("Ta", "Tb", false), q1 = rng.chance(1, 2) ? mk("Tz", "Tb", rng.chance(1, 2)) : mk("Ta", "Tb", true);
+    const full = Object.fromEntries(uniq.map(([k, t]) => [k, t.s === "string" ? "x" : t.s === "number" ? 1 : true]));
+    const vals = [full, {}, ...uniq.map(([k]) => { const o = { ...full }; delete o[k]; return o; }), { ...full, extra: 1 }, 1, null, "x"];
+    return [A("rewrite"), A(String(counter++)), p1, [["entry.ts", tsOfProg(p1)]], vals.map(encVal), q1, [["entry.ts", tsOfProg(q1)]], [A("rename"), A("perm-decls")]];
+  }
+  if (rng.chance(1, 12)) {
     // renaming an alias in a program of SEVERAL modules: two modules whose paths read alike once mangled (`a/b.ts`, `a_b.ts`;
     // `user-types.ts`, `user_types.ts`) each declare a type; the rewrite gives both types the same name (imports updated).
     // The term is the same before and after (the model compiles the term); the files differ
